@@ -575,16 +575,16 @@ theorem plain_resolve (hpp : PlainParams env) (w : Val) : Plain (resolve env w) 
   all_goals (intro _ hh; cases hh)
 
 /-- Is a pattern result "matched". -/
-def isTrue : Val → Bool
+def matched : Val → Bool
   | .bool true => true
   | _ => false
 
 /-- Value of a `match` given, per case, the pattern result and the value of the arm. -/
 def matchVal : List (Val × Val) → Val
   | [] => .null
-  | (r, a) :: rest => if isTrue r then a else matchVal rest
+  | (r, a) :: rest => if matched r then a else matchVal rest
 
-theorem jumps_false_iff {r : Val} (h : BoolOrErr r) : jumps false r = !isTrue r := by
+theorem jumps_false_iff {r : Val} (h : BoolOrErr r) : jumps false r = !matched r := by
   rcases h with ⟨b, rfl⟩ | ⟨k, rfl⟩
   · cases b <;> rfl
   · rfl
@@ -628,7 +628,7 @@ theorem go_matchTail (hnp : NoProgs env) {v : Val} (hv : Plain v)
       .dup).frame [.val v]
     rw [hrr, jumps_false_iff hr] at g3
     have g123 := (g1.trans g2).trans (g3.cast rfl (by omega) rfl)
-    cases hm : isTrue r
+    cases hm : matched r
     · -- no match: on to the next case with the scrutinee still on the stack
       obtain ⟨w', k', hw', hk', gT⟩ := ih' v (resolve_plain hv)
       rw [hm] at g123
@@ -726,6 +726,37 @@ theorem plain_rel (op : RelOp) (a b : Val) : Plain (rel op a b) := by
   split
   · exact plain_bool _
   · exact plain_err _
+
+theorem boe_errProp {f : Val → Val → Val} (hf : ∀ a b, BoolOrErr (f a b)) (a b : Val) :
+    BoolOrErr (errProp a b f) := by
+  unfold errProp
+  split
+  · exact Or.inr ⟨_, rfl⟩
+  · split
+    · exact Or.inr ⟨_, rfl⟩
+    · exact hf _ _
+
+theorem boe_valNe (a b : Val) : BoolOrErr (valNe a b) := by
+  unfold valNe
+  apply boe_errProp
+  intro a b
+  rcases boe_valEq a b with ⟨x, hx⟩ | ⟨k, hk⟩
+  · rw [hx]; exact Or.inl ⟨_, rfl⟩
+  · rw [hk]; exact Or.inr ⟨_, rfl⟩
+
+theorem boe_rel (op : RelOp) (a b : Val) : BoolOrErr (rel op a b) := by
+  unfold rel
+  apply boe_errProp
+  intro a b
+  split
+  · exact Or.inl ⟨_, rfl⟩
+  · exact Or.inr ⟨_, rfl⟩
+
+theorem boe_cmp (op : CmpOp) (a b : Val) : BoolOrErr (op.apply a b) := by
+  cases op <;> simp only [CmpOp.apply]
+  · exact boe_valEq _ _
+  · exact boe_valNe _ _
+  all_goals exact boe_rel _ _ _
 
 theorem plain_inOp (a b : Val) : Plain (inOp a b) := by
   unfold inOp
